@@ -1152,6 +1152,11 @@ fn _normalize_attribute(text: StrSpan, buffer: &mut TextBuffer, ctx: &mut Contex
         let c = stream.curr_byte_unchecked();
 
         if c != b'&' {
+            // `<` inside an ENTITY is an error, just like an escaped one.
+            if c == b'<' && ctx.loop_detector.depth > 0 {
+                return Err(Error::InvalidAttributeValue(stream.gen_text_pos()));
+            }
+
             stream.advance(1);
             buffer.push_from_attr(c, stream.curr_byte().ok());
             continue;
